@@ -22,11 +22,11 @@ vars == <<order, cst, trk, hist>>
 \*           between terms and texts are built, re-pointed, renamed and broken
 \* "proj"  : definitions that differ only in the index of a projection (X1, D1 := X1 x B(X1), D2 := Pr1(D1) by script)
 \* "names" : renaming (C08): aliases that are prefixes of each other, chains and mentions in definitions, conventions, references
-OpSet == CASE Preset = "ids" -> {"Emplace", "InsertCopy", "Erase", "SetAlias", "MoveBefore", "ResetAliases", "Track", "StopTracking", "SetExpression", "SaveLoad"}
+OpSet == CASE Preset = "ids" -> {"Emplace", "InsertCopy", "InsertBulk", "Erase", "SetAlias", "MoveBefore", "ResetAliases", "Track", "StopTracking", "SetExpression", "SaveLoad"}
            [] Preset = "dups" -> {"Emplace", "Track", "DeleteDuplicates", "Erase", "SetAlias", "SetConvention"}
-           [] Preset = "deps" -> {"Emplace", "SetExpression", "Erase"}
+           [] Preset = "deps" -> {"Emplace", "SetExpression", "Erase", "InsertBulk"}
            [] Preset = "kinds" -> {"Emplace", "SetExpression", "Erase", "SetAlias"}
-           [] Preset = "names" -> {"Emplace", "SetAlias", "ResetAliases", "SetConvention", "SetTerm", "SetText", "InsertCopy", "Erase"}
+           [] Preset = "names" -> {"Emplace", "SetAlias", "ResetAliases", "SetConvention", "SetTerm", "SetText", "InsertCopy", "InsertBulk", "Erase"}
            [] Preset = "ops" -> {"Emplace", "Erase"}
            [] Preset = "texts" -> {"Emplace", "SetTerm", "SetText", "SetAlias", "Erase", "SetTermForm"}
            [] Preset = "proj" -> {"Emplace", "SetExpression", "Erase"}
@@ -104,6 +104,13 @@ ConvPool == {<<>>, <<"X1", "note", "D1", "X11", "x1">>}
 RecPool == {[uid |-> u, alias |-> a, kind |-> k, def |-> DefPool[d], conv |-> <<"X1">>, term |-> <<[r |-> TRUE, s |-> a]>>, text |-> <<>>] :
                u \in RecUids, a \in RecAliases, k \in {"base", "term"}, d \in RecDefs}
 
+\* pairs inserted in one call: a base set with a term over it, terms that mention each other (forward and backward in the list),
+\* every alias apt to collide with what the schema already holds
+BRec(u, a, k, d) == [uid |-> u, alias |-> a, kind |-> k, def |-> DefPool[d], conv |-> <<a>>, term |-> <<>>, text |-> <<[r |-> TRUE, s |-> a]>>]
+BulkPool == {<<BRec(1, "X1", "base", 1), BRec(2, "D1", "term", 5)>>,
+             <<BRec(1, "D1", "term", 16), BRec(2, "D2", "term", 5)>>,
+             <<BRec(2, "D2", "term", 8), BRec(1, "D1", "term", 2)>>,
+             <<BRec(2, "D1", "term", 6), BRec(3, "D2", "term", 2), BRec(1, "X1", "base", 1)>>}
 Op(o) == [op |-> o, u |-> 0, a |-> "", k |-> "", p |-> 0, b |-> FALSE, fresh |-> 0, d |-> <<>>, hasdef |-> FALSE, w |-> <<>>, q |-> <<>>,
           rec |-> <<>>]
 Toks(d) == IF d = NoDef THEN <<>> ELSE Render(d, 0).t
@@ -121,6 +128,10 @@ Next ==
         /\ \E r \in RecPool : \E f \in {Fresh2(r.uid)} :
               Step(InsertCopy(r, f), [Op("InsertCopy") EXCEPT !.fresh = f,
                      !.rec = <<[uid |-> r.uid, alias |-> r.alias, kind |-> r.kind, d |-> Toks(r.def), conv |-> r.conv, term |-> r.term, text |-> r.text]>>])
+     \/ /\ "InsertBulk" \in OpSet /\ Cardinality(Ids) + 3 <= MaxCst + 2 /\ (Preset = "deps" => Len(hist) = 0)
+        /\ \E rs \in BulkPool : LET fr == SelectSeq(<<91, 92, 93, 94, 95, 96>>, LAMBDA x : x \notin Ids) IN     \* the generator's next free identifiers
+              Step(InsertBulk(rs, fr), [Op("InsertBulk") EXCEPT !.w = <<>>, !.q = <<>>,
+                     !.rec = [i \in DOMAIN rs |-> [uid |-> rs[i].uid, alias |-> rs[i].alias, kind |-> rs[i].kind, d |-> Toks(rs[i].def), conv |-> rs[i].conv, term |-> rs[i].term, text |-> rs[i].text]]])
      \/ /\ "Erase" \in OpSet /\ Free /\ \E u \in (IF Preset = "ops" THEN Ids ELSE UidPool) : Step(Erase(u), [Op("Erase") EXCEPT !.u = u])
      \/ /\ "SetAlias" \in OpSet /\ Free /\ \E u \in Ids, a \in AliasPool, b \in (IF Preset = "texts" THEN {TRUE} ELSE BOOLEAN) : Step(SetAlias(u, a, b), [Op("SetAlias") EXCEPT !.u = u, !.a = a, !.b = b])
      \/ /\ "SetExpression" \in OpSet /\ Free /\ \E u \in Ids, i \in EditDefs :
